@@ -592,3 +592,51 @@ Proof.
   intro H. unfold put_cells. rewrite firstn_app, Nat.sub_diag, firstn_all. cbn [firstn]. rewrite app_nil_r, <- app_assoc.
   f_equal. f_equal. rewrite skipn_app, skipn_all2 by lia. replace (length pre + length vs - length pre)%nat with (length vs) by lia. reflexivity.
 Qed.
+
+(* ---- switch: the segment control jumps to, fall-through, break *)
+Definition sw_has (z : Z) (segs : list (list (option Z) * stmt)) : bool :=
+  existsb (fun seg => existsb (fun l => match l with Some k => k =? z | None => false end) (fst seg)) segs.
+Definition sw_hit (has : bool) (z : Z) (labs : list (option Z)) : bool :=
+  existsb (fun l => match l with Some k => has && (k =? z) | None => negb has end) labs.
+Fixpoint sw_run (call : nat -> list val -> mem -> res (val * mem)) (f : nat) (has : bool) (z : Z)
+    (l : list (list (option Z) * stmt)) (started : bool) (st : state) : outcome :=
+  match l with
+  | [] => ONormal st
+  | (labs, s0) :: r =>
+      if started || sw_hit has z labs then
+        match exec call f s0 st with
+        | ONormal st2 => sw_run call f has z r true st2
+        | OBreak st2 => ONormal st2
+        | o => o
+        end
+      else sw_run call f has z r false st
+  end.
+Lemma sw_run_eq call f (go : stmt -> state -> outcome) has z : (forall s st, go s st = exec call f s st) ->
+  forall l started st,
+  (fix run (l : list (list (option Z) * stmt)) (started : bool) (st : state) {struct l} : outcome :=
+     match l with
+     | [] => ONormal st
+     | (labs, s0) :: r =>
+         if started || existsb (fun l => match l with Some k => has && (k =? z) | None => negb has end) labs then
+           match go s0 st with
+           | ONormal st2 => run r true st2
+           | OBreak st2 => ONormal st2
+           | o => o
+           end
+         else run r false st
+     end) l started st = sw_run call f has z l started st.
+Proof.
+  intro G. induction l as [|[labs s0] r IH]; intros started st; [reflexivity|].
+  cbn [sw_run]. unfold sw_hit. destruct (started || existsb _ labs); [|apply IH].
+  rewrite G. destruct (exec call f s0 st); try reflexivity. apply IH.
+Qed.
+Lemma exec_switch call f e segs st :
+  exec call f (SSwitch e segs) st =
+  match eval call e st with
+  | Ok (v, st1) => match as_int v with Ok z => sw_run call f (sw_has z segs) z segs false st1 | Err x => OErr x end
+  | Err x => OErr x
+  end.
+Proof.
+  destruct f; cbn [exec]; (destruct (eval call e st) as [[v st1]|x]; [|reflexivity]); (destruct (as_int v) as [z|x]; [|reflexivity]);
+  apply sw_run_eq; intros; reflexivity.
+Qed.
